@@ -35,6 +35,7 @@ def make_interp(ctx, env, native_ioport, has_devices, devices=None):
         return env.get(args[0], args[1] if len(args) > 1 else None)
     ai.summaries['os.environ.get'] = env_get
     ai.summaries['os.getenv'] = env_get
+    ai.ext_maps = {'os.environ': env}           # os.environ[name] / name in os.environ
 
     def mk_port(kind):
         def f(interp, base, args, kwargs, node):
